@@ -8,7 +8,7 @@ import struct
 
 from .common import Oracle, Suite, errname, hx, merge
 
-GEN_UNITS = ["Totp", "PyUnicode", "B64"]
+GEN_UNITS = ["Totp", "PyUnicode", "B64", "TotpAll"]
 LEAN_TARGETS = ["PasslibVerif.Props.C13"]
 ASSUMPTIONS = [
     "hashlib (OpenSSL) SHA-1/256/512 are external; the HMAC construction around them is proved equal to RFC 2104 for an abstract digest",
